@@ -58,6 +58,18 @@ def check_guess_spelling(chk, MX):
         chk.count("kind=guess-spelling")
         sc = gen.build_scene(MX, sd, [("a", ac, st1, {})])
         sc.solve_forces()
+        # the analyses pass the guess on to their solves: derivatives taken from the previous circulation are the derivatives
+        try:
+            d_prev = copy.deepcopy((sc.stability_derivatives if k % 2 == 0 else sc.control_derivatives)(initial_guess="previous"))
+            d_lin = copy.deepcopy((gen.build_scene(MX, sd, [("a", ac, st1, {})]).stability_derivatives if k % 2 == 0 else
+                                   gen.build_scene(MX, sd, [("a", ac, st1, {})]).control_derivatives)())
+            bad_d = api.compare(d_prev, d_lin, rtol=2e-5, atol=2e-7)
+            if bad_d:
+                chk.violation("path:derivatives-from-previous", dict(kind="path", what="derivatives with initial_guess='previous' differ from those with the default guess",
+                                                                     scene=sd, aircraft=ac, state=st1, differences=bad_d[:6]))
+        except Exception as e:
+            if type(e).__name__ != "SolverNotConvergedError":
+                chk.violation("path:derivatives-from-previous:raises", dict(kind="path", scene=sd, aircraft=ac, state=st1, error=repr(e)))
         sc.set_aircraft_state(state=st2, aircraft="a")
         try:
             got = copy.deepcopy(sc.solve_forces(initial_guess=guess, **api.ALL_FRAMES))
@@ -92,7 +104,7 @@ def run(chk):
             ac = gen.gen_aircraft(rng, chk.hist, max_wings=2, sides=("both", "both", "left", "right"))
             st = gen.gen_state(rng, chk.hist, ang=6.0)
             if multi:
-                st["position"] = [0.0, k * (30000.0 if far_pair else 25.0), 0.0]
+                st["position"] = [0.0, k * (3.0e6 if far_pair else 25.0), 0.0]
             acs.append(("ac%d" % k, ac, st, gen.gen_controls(rng, ac)))
         try:
             ref_sc = gen.build_scene(MX, sd, acs)
